@@ -15,7 +15,7 @@ from typing import Any, Dict, List, Optional, Tuple
 
 PROPERTY = "C09"
 OPS = ["copy_p", "copy_M", "pickle_p", "pickle_M", "save_p", "save_M", "to_f64", "half",
-       "load_sd", "toggle_rg", "simulate_fp8", "unit_scale"]
+       "load_sd", "toggle_rg", "simulate_fp8", "unit_scale", "dump_p_keep", "dump_M_keep"]
 TAGS = ["weight", "bias", "norm", "output"]
 DEPTHS = [None, 1, 7]
 MAXLEN = {"quick": 3, "thorough": 4}
@@ -25,9 +25,9 @@ RULE = (
     "fixpoint case per initial state; states = histories; non-trivial = history length >= 2"
 )
 BOUND = {
-    "quick": "all 1885 sequences of length <=3 over 12 ops x 12 initial states; BFS to fixpoint on "
+    "quick": "all 2955 sequences of length <=3 over 14 ops x 12 initial states; BFS to fixpoint on "
     "(tag, depth, dtype, requires_grad, hook bits, transformed bit, holder class)",
-    "thorough": "all 22621 sequences of length <=4 x 12 initial states; BFS to fixpoint",
+    "thorough": "all 41371 sequences of length <=4 x 12 initial states; BFS to fixpoint",
 }
 EXHAUSTIVE = {"quick": True, "thorough": True}
 ASSUMPTIONS = [
@@ -82,6 +82,22 @@ def _apply(op: str, M: Any, p: Any, model: Dict[str, Any], step: int) -> Tuple[A
     if op == "copy_M":
         M2 = copy.deepcopy(M)
         return M2, M2.weight
+    if op == "dump_p_keep":
+        # serialise, but go on using the ORIGINAL object (a checkpoint written during training)
+        pickle.dumps(p)
+        b = io.BytesIO()
+        torch.save(p, b)
+        return M, p
+    if op == "dump_M_keep":
+        try:
+            pickle.dumps(M)
+            b = io.BytesIO()
+            torch.save(M, b)
+        except (pickle.PicklingError, AttributeError, TypeError) as e:
+            if model["transformed"] and ("local" in str(e) or "pickle" in str(e).lower()):
+                raise Unrealisable("transformed module is not picklable (local closure)")
+            raise
+        return M, p
     if op == "pickle_p":
         q = pickle.loads(pickle.dumps(p))
         M.weight = q
